@@ -314,7 +314,12 @@ def run_history(acc, rng, hist_seed):
                     pr.srv.did_close(pr.path(name))
                     events.append(("didClose", name))
                 else:
-                    send_open(name, disk[name] if rng.random() < 0.5 else lib_program(rng, 7) if name != "main.asm" else small_program(rng))
+                    if name.startswith("lib") and rng.random() < 0.2:
+                        # the imported file imports the main file (or itself): a cycle, which is an error but must not hurt the server
+                        flags.add("import-cycle")
+                        send_open(name, '.import * from "%s"\n' % rng.choice(["main.asm", name]) + lib_program(rng, 7))
+                    else:
+                        send_open(name, disk[name] if rng.random() < 0.5 else lib_program(rng, 7) if name != "main.asm" else small_program(rng))
             else:
                 # a request of any type at any position
                 name = rng.choice(names + ["not-in-project.asm"])
